@@ -358,7 +358,12 @@ class _Ctx:
             e1 = self.env
             self.env = dict(e0)
             self.block(s.orelse)
-            self.env = _join_env(e1, self.env)
+            if _terminates(s.body) and not _terminates(s.orelse):
+                pass                                   # only the else arm falls through
+            elif _terminates(s.orelse) and not _terminates(s.body):
+                self.env = e1
+            else:
+                self.env = _join_env(e1, self.env)
         elif isinstance(s, (ast.For, ast.AsyncFor)):
             it = self.ev(s.iter)
             for _ in range(3):
@@ -385,7 +390,8 @@ class _Ctx:
                 if h.name:
                     self.env[h.name] = FRESH
                 self.block(h.body)
-                outs.append(self.env)
+                if not _terminates(h.body):           # a handler that always raises / returns contributes nothing to what follows
+                    outs.append(self.env)
             env = outs[0]
             for o in outs[1:]:
                 env = _join_env(env, o)
@@ -804,15 +810,27 @@ class _Ctx:
         out = None
         if repo_targets:
             out = self._call_repo(e, repo_targets, args, kws, starkw, receiver=recv)
-        if name in FRESH_METHODS and not (name == "astype" and _kw_false(e, "copy")):
+        if name in FRESH_METHODS and not (name in ("astype", "to") and _kw_false(e, "copy")):
             return out if out is not None else FRESH
-        if name in VIEW_METHODS or name == "astype":
+        if name in VIEW_METHODS or name in ("astype", "to"):
             v = element_of(recv)
             return v if out is None else v.join(out)
         if out is not None:
             return out
         # unknown method on some object: conservative (may return a view of receiver or arguments)
         return view_of(element_of(recv), *allv)
+
+
+def _terminates(stmts):
+    """The statement list never falls through: it ends in raise / return / continue / break (or an if whose arms all do)."""
+    if not stmts:
+        return False
+    last = stmts[-1]
+    if isinstance(last, (ast.Raise, ast.Return, ast.Continue, ast.Break)):
+        return True
+    if isinstance(last, ast.If):
+        return bool(last.orelse) and _terminates(last.body) and _terminates(last.orelse)
+    return False
 
 
 def _kw_false(call, name):
